@@ -175,10 +175,16 @@ typedef struct { char ud[4]; int m, key; sem_t gate; volatile int entered, exite
 static task_slot TK[NM][NTK];
 static VP_TLS volatile int task_release_on_join;        /* the spec expects the library to wait for the running tasks during this step */
 static VP_TLS volatile int task_joined;
+static volatile int task_free_run;             /* the library is waiting for its tasks: whatever starts now returns at once */
+static int pool_size;                          /* VP_POOLSZ: threads of the context's task pool (0 = the library's own 16) */
+#include "public/module/thpool/thpool.h"
+m_thpool_t *__real_m_thpool_new(uint8_t n, m_thpool_flags fl);
+m_thpool_t *__wrap_m_thpool_new(uint8_t n, m_thpool_flags fl) { return __real_m_thpool_new(pool_size ? (uint8_t)pool_size : n, fl); }
 static int task_fn(void *ud) {
     task_slot *t = ud;
     vp_foreign_thread = 1;
     __atomic_add_fetch(&t->entered, 1, __ATOMIC_SEQ_CST);
+    if (__atomic_load_n(&task_free_run, __ATOMIC_SEQ_CST)) { __atomic_add_fetch(&t->released, 1, __ATOMIC_SEQ_CST); __atomic_add_fetch(&t->exited, 1, __ATOMIC_SEQ_CST); return 40 + t->key; }
     sem_wait(&t->gate);
     __atomic_add_fetch(&t->exited, 1, __ATOMIC_SEQ_CST);
     return 40 + t->key;
@@ -196,7 +202,7 @@ int __wrap_pthread_join(pthread_t th, void **ret) {
     if (in_program && task_mode) {
         /* the library waits for its task threads: the user's functions return now (if the spec expects this wait; else they stay
            blocked and the program hangs: an unexpected wait is reported as core-hang) */
-        if (task_release_on_join) { task_joined += task_release_all(); }
+        if (task_release_on_join) { __atomic_store_n(&task_free_run, 1, __ATOMIC_SEQ_CST); task_joined += task_release_all(); }
     }
     return __real_pthread_join(th, ret);
 }
@@ -448,6 +454,7 @@ static void task_settle(const char *exp) {
         task_joined += task_release_all();
     }
     for (; task_joined > 0; task_joined--) if (wait_notified() != 0) { fail("core-task-no-notification", "a task whose function returned did not notify the loop within 5 s"); return; }
+    if (task_free_run) { __atomic_store_n(&task_free_run, 0, __ATOMIC_SEQ_CST); while (sem_trywait(&task_notified) == 0); }     /* (tasks that were queued ran during the wait) */
     const char *tk = strstr(exp, "|tk:");
     if (!tk) return;
     tk += 4;
@@ -1009,7 +1016,7 @@ static int gw_run(const int *prog, int n) {
     for (int fd = 0; fd < MAXFD; fd++) if (vino[fd].w > 0) { __real_close(vino[fd].w); vino[fd].w = 0; }
     errno_to_leave = 0;
     signals_drain();
-    task_release_on_join = 0; task_joined = 0;
+    task_release_on_join = 0; task_joined = 0; task_free_run = 0;
     if (task_mode) { while (sem_trywait(&task_notified) == 0); for (int i = 0; i < NM; i++) for (int k2 = 0; k2 < NTK; k2++) { TK[i][k2].entered = TK[i][k2].exited = TK[i][k2].released = 0; while (sem_trywait(&TK[i][k2].gate) == 0); } }
     for (int k2 = 1; k2 <= NKEY; k2++) { ufd_r[k2] = ufd_w[k2] = -1; if (k2 <= nkeys) ufd_open(k2); }
     cur_state = gw_edges[prog[0]].src;
@@ -1178,6 +1185,7 @@ int main(int argc, char **argv) {
     if (getenv("VP_NKEYS")) nkeys = atoi(getenv("VP_NKEYS"));
     loop_mode = getenv("VP_LOOPMODE") && atoi(getenv("VP_LOOPMODE"));
     task_mode = getenv("VP_TASKS") && atoi(getenv("VP_TASKS"));
+    pool_size = getenv("VP_POOLSZ") ? atoi(getenv("VP_POOLSZ")) : 0;
     sem_init(&task_notified, 0, 0);
     for (int i = 0; i < NM; i++) for (int k = 0; k < NTK; k++) { snprintf(TK[i][k].ud, sizeof TK[i][k].ud, "%d", k); TK[i][k].m = i; TK[i][k].key = k; sem_init(&TK[i][k].gate, 0, 0); }
     { sigset_t ss; sigemptyset(&ss); for (int k = 1; k <= NKEY; k++) sigaddset(&ss, SIGS[k]); sigprocmask(SIG_BLOCK, &ss, NULL); }
